@@ -693,13 +693,11 @@ impl Driver {
                             }
                         }
                         Op::Get { k } => {
-                            // the read may have been recorded before the callback ran
+                            // A get that panicked is not a successful get: it is no access (C06). Its
+                            // lookup may have been recorded all the same (C14 allows "at most once").
                             if is_sync && post.rlen > pre.rlen {
-                                truth_after.make_uncertain(k, now, true);
                                 let h = self.cut.as_ref().unwrap().hash(k);
                                 self.pending_reads.push(h);
-                            } else if !is_sync {
-                                truth_after.make_uncertain(k, now, true);
                             }
                         }
                         Op::Invalidate { k } => {
@@ -1368,17 +1366,17 @@ impl Driver {
                     }
                 }
             } else {
-                // the table before + any prefix of the pending reads
+                // The table before + exactly the recorded lookups that left the queue: a single thread
+                // never finds the read log full, so every lookup is recorded, and whatever a
+                // maintenance run takes out of the queue it applies, in order.
+                let consumed = seq.len().saturating_sub(post_rlen);
                 let mut t = pre_sketch.deep_clone();
+                for h in seq.iter().take(consumed) {
+                    t.increment(*h);
+                }
                 if t.table() == post_table {
                     ok = true;
-                }
-                for (i, h) in seq.iter().enumerate() {
-                    t.increment(*h);
-                    if t.table() == post_table {
-                        ok = true;
-                        applied_all = i + 1 == seq.len();
-                    }
+                    applied_all = consumed == seq.len();
                 }
             }
             if !ok {
@@ -1386,8 +1384,9 @@ impl Driver {
                     &["C14"],
                     format!("sketch:unexpected-change:{}", op.kind_name()),
                     format!(
-                        "the popularity table after {} is not the table before it plus a prefix of the {} pending recorded lookup(s)",
+                        "the popularity table after {} is not the table before it plus the first {} of the {} pending recorded lookup(s) (those that left the read queue)",
                         op.to_line(),
+                        seq.len().saturating_sub(post_rlen),
                         seq.len()
                     ),
                 );
